@@ -49,6 +49,8 @@ def run(check: Check):
   roundcheck.check_no_client_filter(check, repo, fi, clients_param)
   # the state that goes into a round is the caller's: no function on the round's path donates its arguments
   from fjsa.props import c10
+  from fjsa.props import c17
+  c17._ignore_grads(check)
   c10.donation_scope(check, only_files=('fedjax/core/optimizers.py', 'fedjax/algorithms/fed_avg.py', 'fedjax/core/models.py'))
   # every way out of apply goes through the server update: a round that returns the state it was given (e.g. "nothing to average")
   # skips the optimizer step, which a stateful optimizer still has to take
